@@ -28,7 +28,8 @@ RULE = ('certificate hierarchies of chain length 1..4 built with the real securi
         'unknown or HMAC signature type, self/2-cycle certificate loop) injected at every link; anchors: good, wrong name '
         'shape, not self-signed, forged, HMAC, unsigned, no content, undecodable, schema with a missing user function; '
         'histories: up to 3 instances (different anchors / schemas / explicit or default storage) x up to 3 packets in '
-        'sampled (quick) or all (thorough) orders.  non-trivial = at least one validation that needs a certificate '
+        'sampled (quick) or all (thorough) orders; one instance validating packets of ONE key whose KeyLocators name different '
+        'certificates of it (other version / issuer id; the second one valid, missing, Nack, forged or wrongly signed).  non-trivial = at least one validation that needs a certificate '
         'fetch or a constructor decision; distinct by (scenario tag, key types, order)')
 ASSUMPTIONS = [
     'signature verification and key import are oracles: the model receives the results of the real '
@@ -972,8 +973,52 @@ def gen_histories(ctx, env):
         ctx.case(('9a', wi), nontrivial=True, stratum='history:9a-witness')
 
 
+def gen_same_key(ctx, env):
+    """ONE instance, several packets signed by ONE key whose KeyLocators name DIFFERENT certificates of that key
+    (another version / issuer id).  Every certificate on the way has to be retrievable and valid on its own: a
+    verdict may not lean on another certificate of the same key that the instance saw before."""
+    rng = ctx.rng
+    for wi in range(ctx.n(8, 60)):
+        h = Hier(env, rng)
+        depth = rng.choice([1, 2, 2, 3])
+        w, anchor, chain = base_world(env, h, depth)
+        lv = LEVELS[depth]
+        up = LEVELS[depth - 1]
+        alt = rng.choice(['version', 'version', 'issuer'])
+        iss = h.issuer_comp(lv) if alt == 'version' else 'zed'
+        ver = 2 if alt == 'version' else 1
+        n2 = env.cert_name(h.key_name(lv), iss, ver)
+        p1 = chain[0]
+        p2 = w.add(env.data(h.leaf_name(depth), b'other', env.signer(h.key[lv], n2)))
+        fate = rng.choice(['missing', 'missing', 'nack', 'neterr', 'forged', 'wrong-signer', 'valid'])
+        upsigner = env.signer(h.key[up], h.names[up])
+        if fate == 'nack':
+            w.respond(n2, 'nack')
+        elif fate == 'neterr':
+            w.respond(n2, 'fail')
+        elif fate == 'forged':
+            _, c2 = env.cert(h.key_name(lv), iss, ver, h.key[lv][2], TweakSigner(upsigner, flip_sig=True))
+            w.serve(n2, w.add(c2))
+        elif fate == 'wrong-signer':
+            ok = other_key(env, rng, h, h.key[up][0])
+            _, c2 = env.cert(h.key_name(lv), iss, ver, h.key[lv][2], env.signer(ok, h.names[up]))
+            w.serve(n2, w.add(c2))
+        elif fate == 'valid':
+            _, c2 = env.cert(h.key_name(lv), iss, ver, h.key[lv][2], upsigner)
+            w.serve(n2, w.add(c2))
+        for kind in ('lvs', 'cascade'):
+            pre = [('lvs', 0, anchor, None)] if kind == 'lvs' else [('cascade', anchor, None)]
+            for oi, seq in enumerate(([p1, p2, p1], [p2, p1, p2], [p1, p1, p2, p2], [p2, p2, p1])):
+                ops = pre + [('val', 0, p) for p in seq]
+                tag = f'same-key:{kind}:{alt}:{fate}:d{depth}'
+                impl = check_history(ctx, env, w, ops, tag)
+                ctx.case((tag, wi, oi), nontrivial=True, stratum=f'same-key:{kind}:{fate}',
+                         sample={'tag': tag, 'obs': [o[:3] for o in impl]})
+
+
 def run(ctx):
     env = Env(ctx)
+    gen_same_key(ctx, env)
     gen_anchors(ctx, env)
     gen_loops(ctx, env)
     gen_single(ctx, env)
